@@ -434,40 +434,14 @@ theorem inRows_noOT {number : Bool} {k : Kind} (hk : (number = true ∧ k = .num
     exact .bind (inColumns_noOT hk (h l (by simp)) cols hcols) fun _ _ =>
       .bind (inRows_noOT hk hcols n (i + 1) ls fun a ha => h a (by simp [ha])) fun _ _ => .ok _
 
-theorem equalBatchRow_noOT {k : Kind} (hs : k.scalar = true) {first x y : Value} (hf : first.hasKind k = true)
-    (hx : x.hasKind k = true) (hy : y.hasKind k = true) {ek : EqKind} (he : eqKindOf first = some ek) :
-    NoOT (equalBatchRow ek x y) := by
-  cases k <;> simp [Kind.scalar] at hs
-  · obtain ⟨f, rfl | rfl⟩ := Value.text_cases hf <;> simp [eqKindOf] at he <;> subst he <;>
-      obtain ⟨a, rfl | rfl⟩ := Value.text_cases hx <;> obtain ⟨b, rfl | rfl⟩ := Value.text_cases hy <;>
-      simp [equalBatchRow, convertToByteArray, NoOT]
-  · obtain ⟨c, hc⟩ := execNumberCompare_ok hx hy .eq
-    rcases Value.num_cases hf with ⟨i, rfl | rfl⟩ | ⟨f, rfl⟩ <;> simp [eqKindOf] at he <;> subst he <;>
-      simp [equalBatchRow, numberEqual, hc, NoOT]
-  · obtain ⟨f, rfl⟩ := Value.bool_cases hf
-    obtain ⟨a, rfl⟩ := Value.bool_cases hx
-    obtain ⟨b, rfl⟩ := Value.bool_cases hy
-    simp [eqKindOf] at he; subst he
-    simp [equalBatchRow, NoOT]
-
-theorem eqKindOf_of_scalar {k : Kind} (hs : k.scalar = true) {v : Value} (hv : v.hasKind k = true) :
-    ∃ ek, eqKindOf v = some ek := by
-  cases k <;> simp [Kind.scalar] at hs <;> cases v <;> simp [Value.hasKind] at hv <;> simp [eqKindOf]
-
 theorem equalBatchFinish_noOT {not : Bool} {k : Kind} (hs : k.scalar = true) {n : Nat} {xs ys : List Value}
     (hx : ∀ x ∈ xs, x.hasKind k = true) (hy : ∀ y ∈ ys, y.hasKind k = true) : NoOT (equalBatchFinish not n xs ys) := by
   unfold equalBatchFinish
   split
   · exact .ok _
-  · cases xs with
-    | nil => simp [NoOT]
-    | cons first rest =>
-      simp only [List.head?_cons]
-      obtain ⟨ek, hek⟩ := eqKindOf_of_scalar hs (hx first (by simp))
-      rw [hek]
-      dsimp only
-      refine zipRows_noOT _ _ _ fun a ha b hb => ?_
-      exact NoOT.map (NoOT.map (equalBatchRow_noOT hs (hx first (by simp)) (hx a ha) (hy b hb) hek))
+  · refine zipRows_noOT _ _ _ fun a ha b hb => ?_
+    obtain ⟨c, hc⟩ := equalRow_ok hs (hx a ha) (hy b hb)
+    rw [hc]; simp [NoOT, boolV, Except.map]
 
 theorem distanceRow_noOT {dist : List F64 → List F64 → Except Err F64} (hd : ∀ l r, NoOT (dist l r))
     {x : Value} (hx : x.hasKind .listText = true ∨ x.hasKind .listNum = true) {y? : Option Value}
